@@ -1,4 +1,4 @@
-From Tramp Require Import Model.Base Model.Node Model.Provider Model.ProviderSys Proofs.ProviderProofs Proofs.ProviderTyped Props.C16.
+From Tramp Require Import Model.Base Model.Node Model.Provider Model.ProviderSys Proofs.ProviderProofs Proofs.ProviderTyped Proofs.ProviderLive Props.C16.
 Check C16_pay : forall (parts0 : list pstat) (b : list N) (a : option N) (f d rt : N) (evs : list pevent),
   hist_ok (pay_init parts0 (QPay b a f d rt)) evs = true ->
   let s := prun (pay_init parts0 (QPay b a f d rt)) evs in
@@ -20,8 +20,22 @@ Check C16_failure_is_final_without_read_errors : forall (parts0 : list pstat) (b
 (* the fault-freedom hypothesis is pinned as a definition *)
 Check (eq_refl : hist_clean = fix hist_clean (s : psys) (evs : list pevent) {struct evs} : bool :=
   match evs with [] => true | ev :: r => no_read_fault s ev && hist_clean (pstep s ev) r end).
+Check C16_fallback_wait_returns : forall (parts0 : list pstat) (b : list N) (a : option N) (f d rt : N) (evs0 evs : list pevent),
+  hist_ok (pay_init parts0 (QPay b a f d rt)) evs0 = true ->
+  let s := prun (pay_init parts0 (QPay b a f d rt)) evs0 in
+  waiting s <> None ->
+  hist_ok s evs = true ->
+  (forall k e, nth_error evs k = Some e -> peffective (prun s (firstn k evs)) e) ->
+  waiting (prun s evs) <> None ->
+  (length evs <= ppot s)%nat.
+Check C16_fallback_wait_never_at_rest : forall (parts0 : list pstat) (b : list N) (a : option N) (f d rt : N) (evs0 : list pevent) w,
+  hist_ok (pay_init parts0 (QPay b a f d rt)) evs0 = true ->
+  let s := prun (pay_init parts0 (QPay b a f d rt)) evs0 in
+  waiting s = Some w -> exists ev, pwf s ev = true /\ peffective s ev.
 Print Assumptions C16_pay.
 Print Assumptions C16_err_only_from_read_error.
 Print Assumptions C16_needs_N2.
 Print Assumptions C16_nonvacuous.
 Print Assumptions C16_failure_is_final_without_read_errors.
+Print Assumptions C16_fallback_wait_returns.
+Print Assumptions C16_fallback_wait_never_at_rest.
